@@ -96,16 +96,16 @@ def _access_record_rules(ck):
 
 
 def run(ck):
-    ck.rule("R1", "shared constant names have equal values in csts.py and vm_mngr.h", floor=12)
+    ck.rule("R1", "shared constant names have equal values in csts.py and vm_mngr.h", floor=8)
     ck.rule("R2", "same phase order in the three back ends", floor=3)
-    ck.rule("R3", "a failing host memory call on the Python back end's guest access path is caught and reported as a VM fault", floor=2)
-    ck.rule("R4", "each back end's guest access path tests the page permission", floor=6)
-    ck.rule("R5", "the two C dispatch loops perform the same abstract event sequence", floor=2)
+    ck.rule("R3", "a failing host memory call on the Python back end's guest access path is caught and reported as a VM fault", floor=1)
+    ck.rule("R4", "each back end's guest access path tests the page permission", floor=5)
+    ck.rule("R5", "the two C dispatch loops perform the same abstract event sequence", floor=1)
     ck.rule("R6", "each operator handled by the LLVM back end reaches the LLVM instruction of its reference meaning", floor=20)
     ck.rule("R8", "the stop set only the C dispatch loops consult is current: a stale one makes them chain through an address where the Python back end stops (rules shared with C23-R3)", floor=1)
     from rules.c23 import stop_set_rules
     stop_set_rules(ck, "R8")
-    ck.rule("R10", "the Python back end's bridge to the VM lays values out as the C primitives do: big endian at the access width, reversed last for little-endian VMs (rules shared with C12-R7)", floor=6)
+    ck.rule("R10", "the Python back end's bridge to the VM lays values out as the C primitives do: big endian at the access width, reversed last for little-endian VMs (rules shared with C12-R7)", floor=4)
     from rules.c12 import emulated_byte_order_rules
     emulated_byte_order_rules(ck, "R10")
     ck.rule("R11", "the instruction-wide attributes (memory read / write / exception summary) are computed from ALL the IR blocks of the instruction on every back end", floor=2)
